@@ -80,6 +80,11 @@ class _RoutingFlowControl:
         """Cancel internal tasks."""
         if self._timer_task:
             self._timer_task.cancel()
+            self._timer_task = None
+        # the pause ends with its timer - nothing else would resume sending
+        self._wait_start_time = None
+        self._received_busy_frames = 0
+        self._ready.set()
 
     @asynccontextmanager
     async def throttle(self) -> AsyncIterator[None]:
